@@ -781,7 +781,7 @@ func within(limit time.Duration, f func()) bool {
 	select {
 	case <-done:
 		return true
-	case <-time.After(limit):
+	case <-vk.After(limit):
 		return false
 	}
 }
@@ -840,7 +840,7 @@ func runParked(p ParkedPlan) (vk.Outcome, error) {
 				if err != stream.ErrClosedPipe {
 					return out, vk.Violf("invalid-result", "the parked Send returned %v after the receiver closed", err)
 				}
-			case <-time.After(limit):
+			case <-vk.After(limit):
 				return out, vk.Violf("send-stuck", "the parked Send has not returned %v after the receiver's Close returned", limit)
 			}
 		}
